@@ -260,7 +260,7 @@ type scenario struct {
 }
 
 var terminators = []string{"peer-close", "stream-error", "handler-error", "deadline"}
-var forced = []string{"X1a", "X1b", "X2", "X3", "X4", "X5a", "X5b", "X6", "X7", "X8"}
+var forced = []string{"X1a", "X1b", "X2", "X3", "X4", "X5a", "X5b", "X5c", "X6", "X7", "X8"}
 
 func run(c *core.Case) {
 	if c.Index < len(forced)*2 {
@@ -281,6 +281,7 @@ type world struct {
 	serveAt atomic.Int64 // logical time at which Serve returned
 
 	faulted     bool         // a write fault was injected on the closing tag
+	faultAt     int          // wire offset at which the transport was made to fail (forced X5*)
 	wireAtClose atomic.Int64 // bytes on the wire when the first Close call returned (-1: none yet)
 }
 
@@ -502,6 +503,9 @@ func (w *world) finish(term string, smp *sample) {
 	if w.faulted {
 		// the write of the closing tag was made to fail: at most one (possibly
 		// partial) tag may exist, and nothing may follow the attempt
+		if w.faultAt > 0 && len(wire) > w.faultAt {
+			c.Violate("close:written-after-failed-tag", "the transport failed on the closing tag at offset %d, yet %d more bytes were written: %q", w.faultAt, len(wire)-w.faultAt, tail(wire[w.faultAt:], 120))
+		}
 		if ntags > 1 {
 			c.Violate("close:tags-after-fault", "%d closing tags on the wire although the first attempt to write it failed; tail: %q", ntags, tail(wire, 120))
 		}
@@ -953,18 +957,26 @@ func runForced(c *core.Case, id string, s2s bool) {
 		c.Count("forced_scenarios", 1)
 		w.finish(term, smp)
 		return
-	case "X5a", "X5b": // the transport fails (X5b: after 5 bytes) exactly on the write of the closing tag
+	case "X5a", "X5b", "X5c": // the transport fails (X5b: after 5 bytes; X5c: a short write of 5 bytes) exactly on the write of the closing tag
 		e := w.h.begin("sender", "transmit:Send", "x5")
 		err := entries[0].do(context.Background(), w.p.S, "x5")
 		out, d := classifyErr(err)
 		w.h.end(e, out, d)
 		w.faulted = true
 		f := bufconn.NoFault()
+		w.faultAt = w.p.Lib.WrittenLen()
 		if id == "X5a" {
 			_, wr, _ := w.p.Lib.Ops()
 			f.FailWrite = wr + 1
 		} else {
+			w.faultAt += 5
 			f.WriteBreakAfter = w.p.Lib.WrittenLen() + 5
+			if id == "X5c" {
+				// the transport accepts part of the tag, says so, and would accept
+				// more afterwards
+				f.WriteBreakAfter = -1
+				f.ShortWriteAt = w.faultAt
+			}
 		}
 		w.p.Lib.SetFault(f)
 		for k := 1; k <= 2; k++ {
@@ -1069,7 +1081,7 @@ func Prop() *core.Prop {
 		ID:    "C10",
 		Level: core.Exploration,
 		Race:  true,
-		Rule:  "the first 20 cases are the forced scenarios X1a/X1b/X2/X3/X4 (orderings at the close.enter / senderr.enter yield points) X5a/X5b (the transport fails, entirely or after 5 bytes, exactly on the write of the closing tag) and X6 (a transport with synchronous writes in both directions: Close blocked on the closing tag while the peer sends two more stanzas before reading) and X7 (a sender's context ends during its write and the write-deadline helper is parked at wdl.armed while the handler answers a peer IQ) and X8 (SetCloseDeadline replaces the input context while the serve loop is parked at serve.loop holding the old one), each c2s and s2s; the rest are stress histories on one served session (a third of them on a layered transport: a plain io.ReadWriter around the connection installed during negotiation, deadlines proxied): 0-3 closers (1-3 Close calls each, sometimes SetCloseDeadline), 1-4 senders drawing from 13 transmit entry points, peer-injected IQs answered by the handler, and one terminator from {peer close tag, peer stream error, handler error, silence + 50 ms close deadline} issued early or after the actors; afterwards every entry point is called once more on the closed session. Oracles: closing-tag count and bytes after it on the peer side; porcupine check of the recorded history against a two-state closable-log model; marker-on-wire side conditions; State()/TokenReader after Serve; Serve's return per terminator. Distinct = (kind, terminator, closers, some transmit overlapped a Close?, some transmit began after a Close returned?, tags).",
+		Rule:  "the first 22 cases are the forced scenarios X1a/X1b/X2/X3/X4 (orderings at the close.enter / senderr.enter yield points) X5a/X5b/X5c (the transport fails, entirely, after 5 bytes, or with a short write of 5 bytes, exactly on the write of the closing tag) and X6 (a transport with synchronous writes in both directions: Close blocked on the closing tag while the peer sends two more stanzas before reading) and X7 (a sender's context ends during its write and the write-deadline helper is parked at wdl.armed while the handler answers a peer IQ) and X8 (SetCloseDeadline replaces the input context while the serve loop is parked at serve.loop holding the old one), each c2s and s2s; the rest are stress histories on one served session (a third of them on a layered transport: a plain io.ReadWriter around the connection installed during negotiation, deadlines proxied): 0-3 closers (1-3 Close calls each, sometimes SetCloseDeadline), 1-4 senders drawing from 13 transmit entry points, peer-injected IQs answered by the handler, and one terminator from {peer close tag, peer stream error, handler error, silence + 50 ms close deadline} issued early or after the actors; afterwards every entry point is called once more on the closed session. Oracles: closing-tag count and bytes after it on the peer side; porcupine check of the recorded history against a two-state closable-log model; marker-on-wire side conditions; State()/TokenReader after Serve; Serve's return per terminator. Distinct = (kind, terminator, closers, some transmit overlapped a Close?, some transmit began after a Close returned?, tags).",
 		Assumptions: []string{
 			"a transmit that overlaps a Close in time may land on either side of the closing tag",
 			"handler replies are buffered until the handler returns, so their on-wire side condition is not demanded; their error value is",
